@@ -1,6 +1,7 @@
 package main
 
 import (
+	"sort"
 	"crypto/sha256"
 	"fmt"
 	"regexp"
@@ -132,6 +133,35 @@ func makeIntrinsics() map[string]intrinsic {
 	}
 	m["google.golang.org/grpc/status.Error"] = func(st *State, fr *frame, a []value, cc *ssa.CallCommon) value { return newErr(st, "grpc-status") }
 	m["google.golang.org/grpc/status.Errorf"] = func(st *State, fr *frame, a []value, cc *ssa.CallCommon) value { return newErr(st, "grpc-status") }
+	m[V+"StateDigest"] = func(st *State, fr *frame, a []value, cc *ssa.CallCommon) value {
+		var names []string
+		for n := range st.colls {
+			names = append(names, n)
+		}
+		sort.Strings(names)
+		var sb strings.Builder
+		for _, n := range names {
+			c := st.colls[n]
+			if len(c.keys) == 0 {
+				continue
+			}
+			// order-insensitive: sort the rendered entries
+			var ents []string
+			for i := range c.keys {
+				ents = append(ents, valString(c.keys[i])+"="+valString(c.vals[i]))
+			}
+			sort.Strings(ents)
+			sb.WriteString(n + "{" + strings.Join(ents, ";") + "}")
+		}
+		return StrConst(sb.String())
+	}
+	m["strings.ToUpper"] = func(st *State, fr *frame, a []value, cc *ssa.CallCommon) value {
+		s, ok := a[0].(*Str).Concrete()
+		if !ok {
+			panic(pathEnd{kind: "unsupported", msg: "strings.ToUpper on a symbolic string"})
+		}
+		return StrConst(strings.ToUpper(s))
+	}
 	m[V+"Uint32"] = func(st *State, fr *frame, a []value, cc *ssa.CallCommon) value {
 		label, _ := a[0].(*Str).Concrete()
 		x := st.freshVar(label, BV(32))
@@ -1019,6 +1049,44 @@ func (st *State) decimal(x *Term) *Str {
 	st.assume(Eq(sum, Resize(x, ww, false)))
 	result = &Str{B: digits, Len: BVConstI(int64(nd), 64)}
 	return result
+}
+
+// valString renders a value by the identity of its terms (hash-consed: equal terms, equal text).
+func valString(v value) string {
+	switch x := v.(type) {
+	case *Term:
+		if x.IsConst() {
+			return "c" + x.C.String()
+		}
+		return fmt.Sprintf("t%d", x.id)
+	case *Str:
+		return "s(" + strKey(x) + ")"
+	case *bigV:
+		if x.isNil {
+			return "nilint"
+		}
+		return "i" + valString(x.v)
+	case structure:
+		var p []string
+		for _, f := range x {
+			p = append(p, valString(f))
+		}
+		return "{" + strings.Join(p, ",") + "}"
+	case array:
+		var p []string
+		for _, f := range x {
+			p = append(p, valString(f))
+		}
+		return "[" + strings.Join(p, ",") + "]"
+	case *value:
+		if x == nil {
+			return "nil"
+		}
+		return "&" + valString(*x)
+	case nil:
+		return "nil"
+	}
+	return fmt.Sprintf("%T", v)
 }
 
 // strKey identifies a string value by its content terms (hash-consed), for functional summaries.
